@@ -1,4 +1,4 @@
-/* C01 — fetch gives every subscriber an exact, ordered replica of matching elements.
+/* C01 - fetch gives every subscriber an exact, ordered replica of matching elements.
  * All action sequences up to a depth over owners P (raw), Q (websocket, also subscriber) and subscriber S (raw),
  * judged after every action by a reference model: replaying the notifications of every active fetch must yield exactly
  * the matching elements with their latest accepted values; no spurious/duplicate notification; adds for existing
@@ -59,7 +59,7 @@ static bool visible(int slot, int pi)
 }
 static int open_slot(int s)
 {
-	int c = jx_open(s == Q ? CL_WS : CL_RAW);
+	int c = jx_open(((s == Q) != (xp_param("swap", 0) != 0)) ? CL_WS : CL_RAW); /* swap=1: P and S speak websocket, Q raw */
 	if (acl && s != P) {
 		jx_sendf(c, "{\"id\":\"au\",\"method\":\"authenticate\",\"params\":{\"user\":\"%s\",\"password\":\"pw\"}}", s == Q ? "both" : "one");
 		jx_settle();
